@@ -153,10 +153,19 @@ func (c *cancelCtx) cancel(err, cause error, inline bool) {
 	} else {
 		c.done.core.closed = true
 	}
-	for _, ch := range c.children {
+	// As in package context, a cancellation reaches the children one after the
+	// other AFTER the parent's Done channel was closed: when a task cancels,
+	// each child is a schedule point of its own, so that another task can see
+	// the parent done while a child (a context some component derived for
+	// itself) is still live. Cancellations fired by a timer stay one step.
+	children := c.children
+	c.children = nil
+	for _, ch := range children {
+		if s != nil && !inline && !s.killing {
+			s.yield(&pending{kind: "ctx.cancel.child", obj: ch.done.core.id})
+		}
 		ch.cancel(err, cause, true)
 	}
-	c.children = nil
 }
 
 func WithCancel(parent Context) (Context, CancelFunc) {
